@@ -630,6 +630,8 @@ class Gen:
                 choices.append(("ips", 0.6))
             if "table" in f and not self.has_table:
                 choices.append(("table", 0.8))
+            if "symbols" in f and ("blocks" in f or "macros" in f):
+                choices.append(("shadow", 0.5))
         total = sum(w for _, w in choices)
         x = rng.random() * total
         kind = choices[-1][0]
@@ -638,6 +640,24 @@ class Gen:
             if x < 0:
                 kind = k
                 break
+        if kind == "shadow":
+            # a top-level name that an inner scope (a block, a macro parameter) defines again: inside, the
+            # inner value counts; afterwards the top-level one must still be what a reference sees
+            name = f"SH{self.uid()}"
+            how = rng.choice(["eq", "assign", "label"])
+            head = {"eq": stmt(f"{name} = {self.lit(8)}"), "assign": stmt(f"{name} := {self.lit(8)}"), "label": stmt(f"{name}:", "label")}[how]
+            if how == "label":
+                self.note_label(name)
+            use = stmt(f".db {name} & 0xff") if how != "label" else stmt(f".dl {name}")
+            if "macros" in f and rng.random() < 0.5:
+                mname = f"msh{self.uid()}"
+                mdef = block(f".macro {mname}({name}) {{", [stmt(f".db {name} & 0xff")], "macro_def", assembled=True)
+                mdef["macro"] = mname
+                self.applied.add(mname)
+                return [head, mdef, stmt(f"{mname}({self.lit(8)})", "apply"), use]
+            inner_def = stmt(f"{name} = {self.lit(8)}") if rng.random() < 0.6 else stmt(f"{name}:", "label")
+            inner = [inner_def, stmt(f".db {name} & 0xff"), self.simple_instr()]
+            return [head, block("{", inner, "block"), use]
         if kind == "instr":
             return [self.simple_instr()]
         if kind == "data":
